@@ -54,6 +54,7 @@ def run(ctx):
     ctx.rule("R09.1", "BUF-RESTORE: from every write into the name buffer inside walk_ports' port loop all paths to the next iteration / return pass the truncation at old_end; bundle_foreach's last store is the NUL at old_end (cut_afterwards)")
     ctx.rule("R09.2", "ENUM-EXPAND: the #N expansion loops emit exactly the indices 0..N-1 (evaluated for N = 0..4), N = atoi of the text after '#', the set rtosc_match_number accepts")
     ctx.rule("R09.3", "KEYS: `enabled by` (port_is_enabled) and `self:` (walk_ports) are the literals rEnabledBy / rSelf emit")
+    ctx.rule("R09.5", "CHILD-OBJECT: every recursion callback (rRecur, rRecurp, rRecurs, rRecursp) stores the child runtime object into data.obj before any return and before it dispatches - the walker reads the child pointer (and its null-ness) from there")
     ctx.rule("R09.4", "TERMINATE: bytes appended to the name buffer through a cursor are followed by a NUL store (or snprintf) on every path before the buffer is handed to walk_ports_recurse / the walker callback")
 
     # ---------------- R09.1 walk_ports
@@ -73,7 +74,13 @@ def run(ctx):
                         defs[G.parse_store(z)[1]].op == "load" and G.parse_load(defs[G.parse_store(z)[1]]) == p]
                 if zero:
                     truncs.append(i)
-    ctx.require(len(truncs) == 1, "walk_ports: truncation `tmp = old_end; while(*tmp) *tmp++ = 0` not found")
+    for c in f.calls():
+        if c.callee and (c.callee.startswith("llvm.memset") or c.callee == "memset") and len(c.args) >= 2 and c.args[0] in oe_loads and c.args[1] == "0":
+            truncs.append(c)
+    for i in f.insts():
+        if i.op == "store" and G.parse_store(i)[0] == "0" and G.parse_store(i)[1] in oe_loads:
+            truncs.append(i)
+    ctx.require(len(truncs) >= 1, "walk_ports: truncation at old_end not found")
     writers = []
     for c in f.calls():
         if c.callee and c.callee.startswith("llvm."):
@@ -203,6 +210,34 @@ def run(ctx):
     rself_names = [n for n in pm if n.startswith("self")]
     ctx.ob("R09.3", "walk_ports self port", len(rself_names) == 1 and rself_names[0] in selfs and "rSelf(" in src, site=A.where(fw), detail={"looked_up": selfs, "rSelf_port_name": rself_names},
            what="walk_ports looks up %s, rSelf names its port %s" % (selfs, rself_names))
+
+    # ---------------- R09.5
+    from ..rules import sugar as S
+    su = ctx.ast("sugar_matrix.cpp")
+    lams = [L for L in S.lambdas(su, os.path.join(WITNESS_DIR, "sugar_matrix.cpp")) if L.macro in ("rRecur", "rRecurp", "rRecurs", "rRecursp")]
+    recs = []
+    for L in lams:
+        data_id = L.params[1]["id"]
+        stmts = A.kids(L.body)
+        st_idx = None
+        for i_, s_ in enumerate(stmts):
+            for x in A.walk(s_):
+                if x.get("kind") == "BinaryOperator" and x.get("opcode") == "=":
+                    l = A.strip_casts(A.kids(x)[0])
+                    if l.get("kind") == "MemberExpr" and l.get("name") == "obj" and A.ref_id(A.kids(l)[0]) == data_id:
+                        st_idx = i_ if st_idx is None else st_idx
+        if st_idx is None and not any(A.callee_name(c) == "dispatch" for c in A.calls_in(L.body)):
+            continue      # the second lambda of rRecur (pointer query) does not recurse
+        recs.append(L)
+        early = []
+        for i_, s_ in enumerate(stmts[:st_idx] if st_idx is not None else stmts):
+            for x in A.walk(s_):
+                if x.get("kind") == "ReturnStmt" or (x.get("kind") == "CXXMemberCallExpr" and A.strip_casts(A.kids(x)[0]).get("name") == "dispatch"):
+                    early.append(A.where(x))
+        ctx.ob("R09.5", L.label, st_idx is not None and not early, site=A.where(L.body) if st_idx is None else A.where(stmts[st_idx]),
+               detail={"stores_data_obj": st_idx is not None, "returns_or_dispatches_before_the_store": early},
+               what="%s: the callback can return / dispatch before it has stored the child object into data.obj" % L.label)
+    ctx.require(len(recs) >= 4, "R09.5: only %d recursion callbacks found in the witness" % len(recs))
 
     # ---------------- R09.4
     g = _find(m, P, r'^walk_ports_recurse0\(')
